@@ -47,11 +47,7 @@ R_COUNT_TWICE = {        # commit 69b7a62: `a.bs.add([b1,b2]); a.bs.remove(b1)` 
             {'k': 'create', 'oid': 2, 'e': 1, 'pk': None, 'scalars': {}, 'refs': {}, 'colls': {}, 'rs': 3},
             {'k': 'coll_add', 'o': 0, 'key': [0, False], 'items': [1, 2], 'via': 'list', 'rs': 4},
             {'k': 'coll_remove', 'o': 0, 'key': [0, False], 'items': [1], 'via': 'single', 'rs': 5}]}
-# found by this check (seed 3), not repaired yet: an object known only through a foreign key (its row is not loaded) is deleted by a cascade;
-# `_delete_` skips `reverse_remove` for its not-yet-loaded many-to-one attribute, a later attribute of the same loop loads the row, which
-# registers the dying object in the parent's collection: the collection then lists a deleted object (fixes/C10-delete-unloaded-object-stays-in-collection.diff)
-W_DELETE_UNLOADED = json.loads('{"ops": [{"colls": {}, "e": 2, "k": "create", "oid": 0, "pk": [0, 1], "refs": {}, "rs": 802936392, "scalars": {"s0": 3}}, {"colls": {}, "e": 2, "k": "create", "oid": 1, "pk": [0, 2], "refs": {"r0b": 0, "r1a": 0, "r1b": 0}, "rs": 238238867, "scalars": {"s0": 2, "s1": 1}}, {"k": "set_ref", "key": [1, true], "o": 0, "rs": 350645903, "v": 0}, {"colls": {}, "e": 0, "k": "create", "oid": 2, "pk": null, "refs": {}, "rs": 130883568, "scalars": {}}, {"colls": {"r0a": [1]}, "e": 2, "k": "create", "oid": 3, "pk": [1, 0], "refs": {"r0b": 1, "r1a": 1}, "rs": 269351542, "scalars": {"s0": 1, "s1": 1}}, {"k": "commit", "rs": 931027068}, {"k": "end_err", "rs": 554405321}, {"k": "set_ref", "key": [1, false], "o": 3, "rs": 521254625, "v": 0}, {"k": "commit", "rs": 151690323}], "schema": {"ents": [{"ckey": false, "pk": "auto", "scalars": [{"name": "s0", "req": false, "unique": false}]}, {"ckey": true, "pk": "explicit", "scalars": [{"name": "s0", "req": false, "unique": false}, {"name": "s1", "req": true, "unique": false}, {"name": "c0", "req": false, "unique": false}, {"name": "c1", "req": false, "unique": false}]}, {"ckey": false, "pk": "composite", "scalars": [{"name": "s0", "req": false, "unique": false}, {"name": "s1", "req": false, "unique": false}]}], "rels": [{"a": {"coll": true, "ent": 2, "opt_casc": null, "req": false}, "b": {"coll": false, "ent": 2, "opt_casc": null, "req": false}, "kind": "m2o", "sym": false}, {"a": {"coll": false, "ent": 2, "opt_casc": true, "req": false}, "b": {"coll": false, "ent": 2, "opt_casc": null, "req": false}, "kind": "o2o", "sym": false}]}}')
-WITNESSES = [('delete-of-unloaded-object', W_DELETE_UNLOADED)]
+WITNESSES = []
 
 REGRESSIONS = [('set-after-unflushed-remove', R_SET_AFTER_REMOVE), ('one-to-many-remove-count', R_COUNT_TWICE)]
 
@@ -274,7 +270,50 @@ def setdata_tie(ctx, nhist, nops):
 
 # ---------------------------------------------------------------- entry points
 
+def witness_delete_unloaded(ctx):
+    """found by this check (and independently elsewhere; repaired in /repo by commit e38da5d): an object known only through a
+    foreign key (its row is not loaded) is deleted;
+    `_delete_` skips `reverse_remove` for the many-to-one attribute that is not loaded yet, a later attribute of the same loop
+    (a one-to-one with a column) loads the row, which registers the dying object in the parent's collection — the collection
+    then listed a deleted object, also after the flush.  Kept as a regression input."""
+    db = Database()
+    class P(db.Entity):
+        items = Set('X')
+    class Y(db.Entity):
+        x = Optional('X')
+    class X(db.Entity):
+        parent = Optional(P)            # many-to-one, declared before the one-to-one
+        y = Optional(Y, column='y')     # one-to-one whose column is in X's table
+        zs = Set('Z')
+    class Z(db.Entity):
+        x = Required(X)
+    db.bind('sqlite', ':memory:')
+    db.generate_mapping(create_tables=True)
+    try:
+        with db_session:
+            p = P(); x = X(parent=p); Z(x=x)
+        with db_session:
+            p = P[1]; z = Z[1]
+            x = z.x                     # known through z's foreign key only
+            unloaded = X.parent not in x._vals_
+            x.delete()
+            got = {'iter': [repr(i) for i in p.items], 'len': len(p.items), 'count': p.items.count(), 'is_empty': p.items.is_empty()}
+            rollback()
+        ctx.case({'witness': 'delete-of-unloaded-object', 'row-was-unloaded': unloaded}, kind='witness')
+        exp = {'iter': [], 'len': 0, 'count': 0, 'is_empty': True}
+        if got != exp:
+            ctx.count('witness-reproduced:delete-of-unloaded-object')
+            ctx.violation('a collection lists an object the session has deleted (the object was known only through a foreign key when it was deleted)',
+                          {'entities': 'P.items=Set(X); X.parent=Optional(P); X.y=Optional(Y, column=..); Z.x=Required(X)',
+                           'calls': ['p = P[1]', 'x = Z[1].x', 'x.delete()', 'list(p.items)']}, observed=got, expected=exp,
+                          key='deleted-object-listed-in-collection:o2m')
+        else: ctx.count('witness-not-reproduced:delete-of-unloaded-object')
+    finally:
+        db.disconnect()
+
+
 def regressions(ctx):
+    witness_delete_unloaded(ctx)
     for name, hist in WITNESSES + REGRESSIONS:
         r = S.Run(hist['schema'], ops=hist['ops'], ctx=None)
         try:
